@@ -45,7 +45,7 @@ ASSUMPTIONS = [
 ]
 CONFIG = {
     'quick': {'shards': 16, 'cases': 160, 'timeout': 600, 'floor': 512},
-    'thorough': {'shards': 32, 'cases': 1600, 'timeout': 3000, 'floor': 10240},
+    'thorough': {'shards': 32, 'cases': 3200, 'timeout': 5400, 'floor': 20480},
 }
 REQUIRED = ['contract_sample', 'contract_contains', 'contract_pdf', 'contract_line_search', 'draws_checked',
             'contains_inside_checked', 'contains_outside_checked', 'pdf_inside_checked', 'pdf_outside_checked',
